@@ -189,8 +189,10 @@ impl Ctx {
         cfg.cases = cases;
         cfg.failure_persistence = None;
         cfg.rng_seed = RngSeed::Fixed(seed);
-        cfg.max_shrink_iters = 4096;
-        cfg.max_shrink_time = 0;
+        // shrinking only affects how small the reported counter-example is, never the verdict: it is
+        // bounded in iterations and in time (failures that involve a watchdog are slow to re-run)
+        cfg.max_shrink_iters = 3000;
+        cfg.max_shrink_time = 90_000;
         cfg.verbose = 0;
         cfg.source_file = None;
         let mut runner = TestRunner::new(cfg);
